@@ -12,12 +12,15 @@ import (
 	"github.com/anishathalye/porcupine"
 )
 
-// version canonicalisation: ULIDs -> v1, v2, ... by first appearance, so that
-// logs, messages and hashes do not depend on ULID entropy.
+// version canonicalisation: every string the storage handed out as a version
+// is replaced by v1, v2, ... in order of first appearance, so that logs,
+// messages and hashes do not depend on how versions look (ULID, UUID, ...)
+// or on their entropy.
 var verRe = regexp.MustCompile(`[0-9A-HJKMNP-TV-Z]{26}`)
 
 type canonizer struct {
-	m map[string]string
+	m     map[string]string
+	order []string // registered raw versions, longest first
 }
 
 var cv = &canonizer{m: map[string]string{}}
@@ -31,12 +34,30 @@ func (c *canonizer) of(v string) string {
 	if x, ok := c.m[v]; ok {
 		return x
 	}
-	x := fmt.Sprintf("v%d", len(c.m)+1)
-	if !verRe.MatchString(v) {
-		x = v
+	if strings.HasPrefix(v, "01BOGUS") {
+		c.m[v] = v
+		return v
 	}
+	x := fmt.Sprintf("v%d", len(c.order)+1)
 	c.m[v] = x
+	c.order = append(c.order, v)
+	sort.SliceStable(c.order, func(i, j int) bool { return len(c.order[i]) > len(c.order[j]) })
 	return x
+}
+
+// register makes the versions of an outcome known before it is printed.
+func (c *canonizer) register(o *outcome) {
+	if o == nil {
+		return
+	}
+	if o.Ver != "" {
+		c.of(o.Ver)
+	}
+	for _, m := range o.Many {
+		if m != nil && m.Ver != "" {
+			c.of(m.Ver)
+		}
+	}
 }
 
 func (w *world) canonVer(v string) string { return cv.of(v) }
@@ -224,5 +245,10 @@ func (w *world) Post(res *sim.Result) {
 }
 
 func canonStr(s string) string {
-	return verRe.ReplaceAllStringFunc(s, func(m string) string { return cv.of(m) })
+	for _, raw := range cv.order {
+		if strings.Contains(s, raw) {
+			s = strings.ReplaceAll(s, raw, cv.m[raw])
+		}
+	}
+	return s
 }
